@@ -567,6 +567,10 @@ class SCCWriter(BaseWriter):
             code_time_microseconds = code_words * MICROSECONDS_PER_CODEWORD
             code_start = start - code_time_microseconds
             if index == 0:
+                # the first caption is loaded ahead of its start as well,
+                # unless that would take it before the beginning of the file
+                if code_start >= 0:
+                    codes[index] = (code, code_start, end)
                 continue
             previous_code, previous_start, previous_end = codes[index - 1]
             if previous_end + 3 * MICROSECONDS_PER_CODEWORD >= code_start:
